@@ -41,9 +41,10 @@ SNext == /\ Len(hist) < Depth
                                   eff |-> AllEffective'])
 SSpec == HInit /\ [][SNext]_hvars
 
-IOs == {[utf8 |-> TRUE, ansi |-> FALSE, verb |-> "normal"], [utf8 |-> FALSE, ansi |-> FALSE, verb |-> "normal"],
-        [utf8 |-> TRUE, ansi |-> FALSE, verb |-> "debug"], [utf8 |-> FALSE, ansi |-> FALSE, verb |-> "debug"],
-        [utf8 |-> TRUE, ansi |-> TRUE, verb |-> "debug"], [utf8 |-> TRUE, ansi |-> TRUE, verb |-> "verbose"]}
+IOs == {[utf8 |-> TRUE, ansi |-> FALSE, verb |-> "normal", width |-> 60], [utf8 |-> FALSE, ansi |-> FALSE, verb |-> "normal", width |-> 60],
+        [utf8 |-> TRUE, ansi |-> FALSE, verb |-> "debug", width |-> 60], [utf8 |-> FALSE, ansi |-> FALSE, verb |-> "debug", width |-> 60],
+        [utf8 |-> TRUE, ansi |-> TRUE, verb |-> "debug", width |-> 60], [utf8 |-> TRUE, ansi |-> TRUE, verb |-> "verbose", width |-> 60],
+        [utf8 |-> TRUE, ansi |-> FALSE, verb |-> "normal", width |-> 40], [utf8 |-> TRUE, ansi |-> TRUE, verb |-> "debug", width |-> 40]}
 Insts(c) == IF c \in {"table", "trace"} THEN {1, 2} ELSE {1}
 
 RNext == /\ Len(hist) < Depth
